@@ -17,6 +17,14 @@ pub enum Op {
     Component,
     Slice,
     CloneWorld,
+    /// `ecs_find_borrow!(w, typed key, |e: &Entity<A>, c: &(mut) OneOf<Pa, Pb>|)`: binds Pa in SmA (col 0), Pb in SmB (col 1)
+    FindOneOf,
+    /// `ecs_iter_borrow!(w, |e: &Entity<A>, c: &(mut) OneOf<Pa, Pb>|)`
+    IterOneOf,
+    /// `ecs_find_borrow!(w, EntityAny key, |e: &EntityAny, c: &(mut) Ha|)`: the query matches both archetypes, the key picks one
+    FindAnyHa,
+    /// `ecs_iter_borrow!(w, |e: &EntityAny, c: &(mut) Ha|)`: visits SmA (holding SmA.Ha) and then SmB (holding SmB.Ha)
+    IterAllHa,
     /// pseudo access: panics; the panic unwinds through every borrow held above it
     Boom,
 }
@@ -45,6 +53,17 @@ pub fn all_accesses() -> Vec<Acc> {
         }
     }
     v.push(Acc { op: Op::CloneWorld, arch: 0, col: 0, mutable: false, ent: 0 });
+    for mutable in [false, true] {
+        for arch in 0..2 {
+            // OneOf<Pa, Pb> resolves to column 0 of SmA and column 1 of SmB; Ha is column 1 of SmA and column 0 of SmB
+            for ent in 0..3 {
+                v.push(Acc { op: Op::FindOneOf, arch, col: arch, mutable, ent });
+                v.push(Acc { op: Op::FindAnyHa, arch, col: 1 - arch, mutable, ent });
+            }
+            v.push(Acc { op: Op::IterOneOf, arch, col: arch, mutable, ent: 0 });
+        }
+        v.push(Acc { op: Op::IterAllHa, arch: 0, col: 1, mutable, ent: 0 });
+    }
     v
 }
 
@@ -58,19 +77,20 @@ impl Shadow {
         match a.op {
             Op::CloneWorld => self.cells.iter().flatten().any(|c| c.1),
             Op::Boom => false,
-            _ => {
-                let c = self.cells[a.arch][a.col];
-                if a.mutable { c.0 > 0 || c.1 } else { c.1 }
-            }
+            _ => self.conflicts_at(a.arch, a.col, a.mutable),
         }
     }
-    fn open(&mut self, a: &Acc) {
-        let c = &mut self.cells[a.arch][a.col];
-        if a.mutable { c.1 = true } else { c.0 += 1 }
+    fn conflicts_at(&self, arch: usize, col: usize, mutable: bool) -> bool {
+        let c = self.cells[arch][col];
+        if mutable { c.0 > 0 || c.1 } else { c.1 }
     }
-    fn close(&mut self, a: &Acc) {
-        let c = &mut self.cells[a.arch][a.col];
-        if a.mutable { c.1 = false } else { c.0 -= 1 }
+    fn open(&mut self, arch: usize, col: usize, mutable: bool) {
+        let c = &mut self.cells[arch][col];
+        if mutable { c.1 = true } else { c.0 += 1 }
+    }
+    fn close(&mut self, arch: usize, col: usize, mutable: bool) {
+        let c = &mut self.cells[arch][col];
+        if mutable { c.1 = false } else { c.0 -= 1 }
     }
     fn idle(&self) -> bool {
         self.cells.iter().flatten().all(|c| *c == (0, false))
@@ -110,6 +130,19 @@ fn touch_mut<T: Payload>(ctx: &Ctx, arch: usize, ent: usize, col: usize, c: &mut
     ctx.cells.borrow_mut()[arch][ent][col].1 = nv;
 }
 
+/// (archetype, entity index) a dynamic handle designates.
+fn which_any(ctx: &Ctx, e: &EntityAny) -> (usize, usize) {
+    if *e == ctx.a[0].into_any() {
+        (0, 0)
+    } else if *e == ctx.a[1].into_any() {
+        (0, 1)
+    } else if *e == ctx.b[0].into_any() {
+        (1, 0)
+    } else {
+        (1, 1)
+    }
+}
+
 /// Which entity index a handle of archetype A / B designates.
 fn which_a(ctx: &Ctx, e: &Entity<SmA>) -> usize {
     if *e == ctx.a[0] { 0 } else { 1 }
@@ -121,8 +154,9 @@ fn which_b(ctx: &Ctx, e: &Entity<SmB>) -> usize {
 /// Does this access take a runtime borrow at all in the current world state?
 pub fn opens(ctx: &Ctx, a: &Acc) -> bool {
     match a.op {
-        Op::FindBorrow | Op::Component => a.ent < 2 && a.ent < ctx.pop[a.arch],
-        Op::IterBorrow => ctx.pop[a.arch] > 0,
+        Op::FindBorrow | Op::Component | Op::FindOneOf | Op::FindAnyHa => a.ent < 2 && a.ent < ctx.pop[a.arch],
+        Op::IterBorrow | Op::IterOneOf => ctx.pop[a.arch] > 0,
+        Op::IterAllHa => ctx.pop[0] + ctx.pop[1] > 0,
         Op::Slice | Op::CloneWorld => true,
         Op::Boom => false,
     }
@@ -130,7 +164,8 @@ pub fn opens(ctx: &Ctx, a: &Acc) -> bool {
 
 /// Performs one access on the real world; `inner` runs while its borrow is held.
 /// Returns how many times `inner` was entered.
-pub fn exec(ctx: &Ctx, a: &Acc, inner: &mut dyn FnMut()) -> usize {
+pub fn exec(ctx: &Ctx, a: &Acc, inner0: &mut dyn FnMut(usize, usize)) -> usize {
+    let mut inner = || inner0(a.arch, a.col);
     let w = &ctx.w;
     let mut entered = 0usize;
     macro_rules! arms {
@@ -215,6 +250,88 @@ pub fn exec(ctx: &Ctx, a: &Acc, inner: &mut dyn FnMut()) -> usize {
             drop(c);
         }
         Op::Boom => std::panic::panic_any(Injected(FaultKind::Closure)),
+        Op::FindOneOf | Op::IterOneOf => {
+            macro_rules! oneof {
+                ($arch:expr, $ents:ident, $stale:ident, $which:ident, $A:ident) => {{
+                    let key = if a.ent < 2 { ctx.$ents[a.ent] } else { ctx.$stale };
+                    match (a.op, a.mutable) {
+                        (Op::FindOneOf, false) => {
+                            ecs_find_borrow!(w, key, |e: &Entity<$A>, c: &OneOf<Pa, Pb>| {
+                                touch(ctx, $arch, $which(ctx, e), $arch, c);
+                                entered += 1;
+                                inner();
+                            });
+                        }
+                        (Op::FindOneOf, true) => {
+                            ecs_find_borrow!(w, key, |e: &Entity<$A>, c: &mut OneOf<Pa, Pb>| {
+                                touch_mut(ctx, $arch, $which(ctx, e), $arch, c);
+                                entered += 1;
+                                inner();
+                            });
+                        }
+                        (Op::IterOneOf, false) => {
+                            ecs_iter_borrow!(w, |e: &Entity<$A>, c: &OneOf<Pa, Pb>| {
+                                touch(ctx, $arch, $which(ctx, e), $arch, c);
+                                entered += 1;
+                                inner();
+                            });
+                        }
+                        _ => {
+                            ecs_iter_borrow!(w, |e: &Entity<$A>, c: &mut OneOf<Pa, Pb>| {
+                                touch_mut(ctx, $arch, $which(ctx, e), $arch, c);
+                                entered += 1;
+                                inner();
+                            });
+                        }
+                    }
+                }};
+            }
+            if a.arch == 0 {
+                oneof!(0, a, stale_a, which_a, SmA)
+            } else {
+                oneof!(1, b, stale_b, which_b, SmB)
+            }
+        }
+        Op::FindAnyHa => {
+            let key: EntityAny = match (a.arch, a.ent < 2) {
+                (0, true) => ctx.a[a.ent].into_any(),
+                (0, false) => ctx.stale_a.into_any(),
+                (_, true) => ctx.b[a.ent].into_any(),
+                (_, false) => ctx.stale_b.into_any(),
+            };
+            if a.mutable {
+                ecs_find_borrow!(w, key, |e: &EntityAny, c: &mut Ha| {
+                    let (ar, en) = which_any(ctx, e);
+                    touch_mut(ctx, ar, en, 1 - ar, c);
+                    entered += 1;
+                    inner0(ar, 1 - ar);
+                });
+            } else {
+                ecs_find_borrow!(w, key, |e: &EntityAny, c: &Ha| {
+                    let (ar, en) = which_any(ctx, e);
+                    touch(ctx, ar, en, 1 - ar, c);
+                    entered += 1;
+                    inner0(ar, 1 - ar);
+                });
+            }
+        }
+        Op::IterAllHa => {
+            if a.mutable {
+                ecs_iter_borrow!(w, |e: &EntityAny, c: &mut Ha| {
+                    let (ar, en) = which_any(ctx, e);
+                    touch_mut(ctx, ar, en, 1 - ar, c);
+                    entered += 1;
+                    inner0(ar, 1 - ar);
+                });
+            } else {
+                ecs_iter_borrow!(w, |e: &EntityAny, c: &Ha| {
+                    let (ar, en) = which_any(ctx, e);
+                    touch(ctx, ar, en, 1 - ar, c);
+                    entered += 1;
+                    inner0(ar, 1 - ar);
+                });
+            }
+        }
         _ => match (a.arch, a.col) {
             (0, 0) => arms!(0, 0, Pa, sm_a, a, stale_a, which_a, SmA),
             (0, 1) => arms!(0, 1, Ha, sm_a, a, stale_a, which_a, SmA),
@@ -229,18 +346,24 @@ pub fn exec(ctx: &Ctx, a: &Acc, inner: &mut dyn FnMut()) -> usize {
 pub fn run_nest(ctx: &Ctx, accs: &[Acc], depth: usize) {
     let Some(a) = accs.first() else { return };
     let does_open = opens(ctx, a);
-    let conflict = does_open && ctx.shadow.borrow().conflicts(a);
+    let conflict = does_open
+        && if a.op == Op::IterAllHa {
+            // one column per populated archetype, taken one archetype after the other
+            (0..2).any(|ar| ctx.pop[ar] > 0 && ctx.shadow.borrow().conflicts_at(ar, 1 - ar, a.mutable))
+        } else {
+            ctx.shadow.borrow().conflicts(a)
+        };
     let takes_cell = does_open && !matches!(a.op, Op::CloneWorld | Op::Boom);
     let mut boom: Option<Caught> = None;
     let res = guard(|| {
-        exec(ctx, a, &mut || {
+        exec(ctx, a, &mut |arch: usize, col: usize| {
             if takes_cell {
-                ctx.shadow.borrow_mut().open(a);
+                ctx.shadow.borrow_mut().open(arch, col, a.mutable);
             }
             // an inner injected panic is re-raised so that it unwinds through this borrow
             let r = guard(|| run_nest(ctx, &accs[1..], depth + 1));
             if takes_cell {
-                ctx.shadow.borrow_mut().close(a);
+                ctx.shadow.borrow_mut().close(arch, col, a.mutable);
             }
             if let Err(c) = r {
                 std::panic::panic_any(InnerPanic(c.msg()));
@@ -255,8 +378,9 @@ pub fn run_nest(ctx: &Ctx, accs: &[Acc], depth: usize) {
                 ctx.errors.borrow_mut().push(format!("{label}: granted although the shadow RefCell state {:?} says it aliases a mutable borrow", ctx.shadow.borrow().cells));
             }
             let want_enter = match a.op {
-                Op::IterBorrow => ctx.pop[a.arch],
-                Op::FindBorrow | Op::Component => does_open as usize,
+                Op::IterBorrow | Op::IterOneOf => ctx.pop[a.arch],
+                Op::IterAllHa => ctx.pop[0] + ctx.pop[1],
+                Op::FindBorrow | Op::Component | Op::FindOneOf | Op::FindAnyHa => does_open as usize,
                 _ => 1,
             };
             if entered != want_enter {
